@@ -478,3 +478,39 @@ def c19_codec_pairs(S, fmt, ch, rate, rng, k=2, steps=14):
         lists.append(ops)
     for ln in merge(lists, rng):
         S.add(ln)
+
+
+STR_TYPES = [1, 2, 3, 4, 5, 6, 7, 8, 9, 16]
+
+
+def text_hex(rng, n):
+    return bytes(33 + rng.randrange(90) for _ in range(n)).hex() if n else "-"
+
+
+def c12_scenario(S, fmt, ch, rate, rng, items, late=False, order=None, cfg=None):
+    """set the given metadata items before the audio (or after it when late), write audio, close, re-open, get everything"""
+    T = gen_core.type_for(fmt)
+    lc = scen.lossless_class(fmt, T)
+    cls, par = lc if lc else ("noise", 0)
+    S.scn(fmt="0x%x" % fmt, ch=ch, T=T, kind="c12", late=int(late), items="+".join(i[0] for i in items), **(cfg or {}))
+    S.add("file 1 new", "open 0 vio w 1 %d %d %d" % (fmt, ch, rate))
+    sets = []
+    for it in items:
+        if it[0] == "str":
+            sets.append("setstr 0 %d %s" % (it[1], text_hex(rng, it[2])))
+        else:
+            sets.append("setmeta 0 %s %d %d %d" % (it[0], rng.randint(1, 10 ** 5), it[1], it[2] if len(it) > 2 else 1))
+    if order == "rev":
+        sets.reverse()
+    elif order == "shuffle":
+        rng.shuffle(sets)
+    if late:
+        S.add("write 0 %s f 9 gen %s %d %d" % (T, cls, rng.randint(1, 10 ** 6), par))
+    S.add(*sets)
+    S.add("write 0 %s f 31 gen %s %d %d" % (T, cls, rng.randint(1, 10 ** 6), par), "close 0")
+    S.add("open 1 vio r 1 %d %d %d" % (fmt if scen.major(fmt) == scen.RAW else 0, ch, rate), "read 1 %s f 45" % T)
+    for t in STR_TYPES:
+        S.add("getstr 1 %d" % t)
+    for k in ("bext", "cart", "cues", "inst", "chmap"):
+        S.add("getmeta 1 %s" % k)
+    S.add("seek 1 0 0", "read 1 %s f 3" % T, "close 1")
